@@ -363,7 +363,8 @@ template <class Mesh> void HistRun<Mesh>::op_sweep(R &r, const Op &q) {
                 long fired = g_sys.fired_enospc;
                 sys_disarm();
                 ++cases; st.add("fault_syscall_enospc", fired ? 1 : 0);
-                if (wr == IO::WriteResult::Ok) ctx.fail(OW, "write-fail-ok-path", "device full after " + std::to_string(p) + " of " + std::to_string(img.size()) + " bytes (write(2) returned ENOSPC " + std::to_string(fired) + " times), ovmb_write(path) returned Ok");
+                if (!fired) st.add("probe_syscall_seam_not_reached");   // (e.g. the writer never got as far as byte p) - nothing to judge
+                else if (wr == IO::WriteResult::Ok) ctx.fail(OW, "write-fail-ok-path", "device full after " + std::to_string(p) + " of " + std::to_string(img.size()) + " bytes (write(2) returned ENOSPC " + std::to_string(fired) + " times), ovmb_write(path) returned Ok");
             } else {
                 PolyMesh dst;
                 sys_arm(path.c_str(), -1, (long)p, false);
@@ -373,7 +374,8 @@ template <class Mesh> void HistRun<Mesh>::op_sweep(R &r, const Op &q) {
                 long fired = g_sys.fired_eio;
                 sys_disarm();
                 ++cases; st.add("fault_syscall_read_eio", fired ? 1 : 0);
-                if (rr == IO::ReadResult::Ok) ctx.fail(OW, "read-fail-ok-path", "read(2) failing with EIO after " + std::to_string(p) + " of " + std::to_string(img.size()) + " bytes, ovmb_read(path) returned Ok");
+                if (!fired) st.add("probe_syscall_seam_not_reached");
+                else if (rr == IO::ReadResult::Ok) ctx.fail(OW, "read-fail-ok-path", "read(2) failing with EIO after " + std::to_string(p) + " of " + std::to_string(img.size()) + " bytes, ovmb_read(path) returned Ok");
             }
         }
         unlink(path.c_str());
